@@ -282,7 +282,8 @@ PROPS = {
             "Astral.C05Real.noon_is_highest", "Astral.EoT.eqOfTime_bound",
             "Astral.C05Noon.splitHours_spec", "Astral.C05Noon.noonUtc_value",
             "Astral.C05Noon.noon_on_requested_date", "Astral.C05Noon.midnightUtc_value",
-            "Astral.C05Noon.midnight_near_zone_midnight",
+            "Astral.C05Noon.midnight_near_zone_midnight", "Astral.C05Noon.noon_total",
+            "Astral.C05Noon.midnight_total",
         ],
         "groups": [G("corr_sun", "sun_events", 4500, 100000), G("corr_sun", "sun_chain", 1400, 30000)],
         "unproved": ["hour angle within 0.25° of 0 / 180 by an independent ephemeris",
@@ -457,17 +458,21 @@ PROPS = {
                       "is trusted; thread interleavings and the TZ variable cannot be expressed in a pure "
                       "model and are covered by the effect theorem plus perturbation runs in the search. "
                       "Overflow cannot be exhibited at α := ℝ; it is covered by the Float correspondence.",
-        "lean_modules": ["Astral.Props.C20"],
+        "lean_modules": ["Astral.Props.C20", "Astral.Props.EoT", "Astral.Props.C05Noon"],
         "generators": ["effects"],
         "theorems": ["Astral.C20.pure_by_effects", "Astral.C20.public_nonempty",
                      "Astral.C20.no_raw_domain_error", "Astral.C20.dawn_no_domain_error",
                      "Astral.C20.dusk_no_domain_error", "Astral.C20.tae_no_domain_error",
-                     "Astral.C13.moonWrapper_outcomes"],
+                     "Astral.C13.moonWrapper_outcomes", "Astral.EoT.eqOfTime_bound_wide",
+                     "Astral.C05Noon.noonUtc_total", "Astral.C05Noon.noon_total",
+                     "Astral.C05Noon.midnight_total"],
         "groups": [G("corr_sun", "sun_extreme", 4000, 100000), G("corr_sun", "sun_events", 2500, 50000),
                    G("corr_sun", "sun_angles", 2500, 50000), G("corr_moon", "moon_riseset", 1500, 30000),
                    G("corr_moon", "moon_angles", 1500, 30000)],
         "unproved": ["totality of the float chain at extreme magnitudes (ℝ cannot overflow)",
-                     "a full 'only documented ValueErrors' theorem for every sun function at α := ℝ"],
+                     "a full 'only documented ValueErrors' theorem for the event functions at α := ℝ (proved: "
+                     "noon and midnight never fail, for every date 0001-01-03 … 9999-12-29, every "
+                     "longitude and zone; dawn/dusk/time_at_elevation never leak a math domain error)"],
         "assumes": ["soundness of the effect extraction for the Python subset astral uses"],
         "trusted_extra": ["harness/effects.py (static effect summary, over-approximation)"],
     },
